@@ -682,6 +682,26 @@ def rule_H1(ctx, R):
                     bad = "the re-created Box is not dropped"
                 if any(not holds_no_user_value(e.get("ty"), ctx.F) for e in p.ev("FORGET")):
                     bad = "Drop forgets a value"
+        # on every path - the unwinding ones too (a payload destructor may panic) - the child is destroyed at most once:
+        # `drop_in_place(data)` and the drop of a `Box<UnsafeCell<L>>` re-created from `data` both destroy it; a
+        # `Box<ManuallyDrop<..>>` only frees the cell
+        for p in paths or []:
+            if bad:
+                break
+            destroys = 0
+            for e in _calls(p):
+                nm = e["def"].split("::")[-1]
+                if nm == "drop_in_place" and e.get("args") and vid(e["args"][0]).startswith(("op:a1.*.0", "ref:a1.*.0")):
+                    destroys += 1
+                elif e["def"].endswith("from_raw"):
+                    ta = (e.get("targs") or [None])[0]
+                    shell = ta is not None and ta.get("k") == "adt" and ta.get("path", "").endswith("ManuallyDrop")
+                    dropped = any(x["k"] in ("MEMDROP", "DROPQ") and x.get("val") == e.get("result") for x in p.events)
+                    if dropped and not shell:
+                        destroys += 1
+            if destroys > 1:
+                bad = "the child is destroyed %d times on one path (%s exit): its values are dropped twice (path: %s)" % (
+                    destroys, p.kind, p.trace()[:300])
         if bad:
             res.bad(Violation("H1", dropfn["path"], "drop", bad, *_floc(dropfn)))
         else:
@@ -797,4 +817,62 @@ def rule_H2(ctx, R):
                         res.bad(Violation("H2", F.top_fn(f)["path"], "transmute", "transmute between different types: %s -> %s" % (src, dst),
                                           f["span"]["file"], s.get("line")))
     res.need(2, "forget/transmute sites")
+    return res
+
+
+def rule_Q7(ctx, R):
+    res = RuleResult("Q7", "only the lock that failed is killed: no function outside the RawLock implementations (and what they call) "
+                           "kills a lock - an API-level function that reacts to a panicking release by poisoning the whole "
+                           "collection kills members that were released normally")
+    from rules_ts import entry_fns
+    n = 0
+    for f in entry_fns(ctx):
+        if (f.get("trait_item") or "").startswith("lockable::RawLock::") or "inputs" not in f:
+            continue
+        paths, err, I = ctx.paths(f)
+        if err or not paths:
+            continue
+        n += 1
+        bad = None
+        for p in paths:
+            ks = [e for e in p.ev("KILL") if not e.get("derived")]
+            if ks:
+                bad = "kills %s (path: %s)" % (ctx.arg_name(f, ks[0]["recv"]), p.trace()[:300])
+                break
+        if bad:
+            res.bad(Violation("Q7", f["path"], "api-kill", bad, *_floc(f)))
+        else:
+            res.ok(f["path"])
+    res.need(100, "entry functions that are not RawLock operations")
+    return res
+
+
+def rule_V4(ctx, R):
+    res = RuleResult("V4", "a non-acquiring operation probes a lock at most once: it never re-tries a lock it found busy (re-polling is "
+                           "waiting) and has no loop around a try")
+    n = 0
+    for f in ctx.F.fns:
+        if f.get("unsafe") or "NON-ACQ" not in R.roles(f) or "mir" not in f or not f.get("reachable") or f["kind"] == "Closure":
+            continue
+        paths, err, I = ctx.paths(f)
+        if err or not paths:
+            continue
+        if not any(p.ev("TRY") for p in paths):
+            continue
+        n += 1
+        bad = None
+        for p in paths:
+            seen = {}
+            for e in p.ev("TRY"):
+                seen[e["recv"]] = seen.get(e["recv"], 0) + 1
+            rep = [r for r, c in seen.items() if c > 1]
+            if rep:
+                bad = "tries %s %d times in one call (path: %s)" % (ctx.arg_name(f, rep[0]), seen[rep[0]], p.trace()[:240])
+            elif p.kind == "cut" and p.ev("TRY"):
+                bad = "has a loop around a try (%s)" % (p.note or "")
+        if bad:
+            res.bad(Violation("V4", f["path"], "re-poll", bad, *_floc(f)))
+        else:
+            res.ok(f["path"])
+    res.need(2, "non-acquiring functions that try a lock")
     return res
